@@ -9,6 +9,7 @@ import C02 as _c02
 ID = 'C08'
 MODEL_ID = 'ARGS'
 HARNESS = A.HARNESS
+INTERNAL_COMPARABLE = False   # behind '##' the harness prints exception class / texts, the driver a note: never equal
 RULE = ('a case = random configuration (2-6 arguments) distributed over 1..3 member handlers of an argument group '
         '(requires/excludes and handler constraints kept inside one member) + either a valid abstract line (oracle: the '
         'destination values a single handler owning all arguments stores) or a rule-breaking mutation of it (oracle: '
